@@ -165,6 +165,8 @@ class Engine:
         self.cb_raise = False
         self.cb_set_armed = False
         self.cb_set_calls = []
+        self.cb_fw_armed = None
+        self.cb_fw_calls = []
         self.cb_hook = None       # called inside the event callback (e.g. another gateway of the process doing its work)
         self.pub_raise = False
         self.sub_raise = False
@@ -217,6 +219,17 @@ class Engine:
         )
         if self.cb_hook is not None:
             self.cb_hook(msg)
+        if self.cb_fw_armed is not None and msg.type == 0 and msg.child_id == 255:
+            # one-shot: the controller schedules a firmware update for the node from inside the callback of the node's
+            # own presentation
+            ft, fv, img = self.cb_fw_armed
+            self.cb_fw_armed = None
+            err = None
+            try:
+                self.gw.tasks.ota.make_update(msg.node_id, ft, fv, img)
+            except Exception as exc:
+                err = exc
+            self.cb_fw_calls.append((msg.node_id, ft, fv, img, err is not None))
         if self.cb_set_armed and msg.type == 1:
             # one-shot: the controller reacts to this report from inside the callback with a command for the same child
             # and value type (a set-point being enforced, a manual change being undone)
